@@ -156,20 +156,49 @@ func (e *Engine) strEq(a, b Value) Value {
 	}
 	ia, ib := items(a), items(b)
 	if len(ia) != len(ib) {
-		// every item is exactly one rune (or one Quote, or one raw byte): different counts
-		// can only be equal if a Quote segment hides runes — Quote items never equal runes
-		// item-for-item, so compare structurally and say "different" only when no Quote is involved.
-		for _, it := range ia {
-			if it.Q != nil {
-				panic(unsupported("string equality with Quote segment of different shape"))
+		// Different item counts. Every rune item is exactly one rune; a Quote item is an opaque
+		// string of unknown length that begins with '"'. Walk both sides while they are aligned:
+		// a definite difference at an aligned place, or one side ending first, proves the strings
+		// different; anything else (alignment lost inside a Quote) cannot be decided here.
+		for i := 0; ; i++ {
+			if i >= len(ia) || i >= len(ib) {
+				return false // aligned so far and one side has at least one more character
+			}
+			x, y := ia[i], ib[i]
+			switch {
+			case x.Q != nil && y.Q != nil:
+				if eq, ok := e.strEq(x.Q.value(), y.Q.value()).(bool); ok && eq {
+					continue // same argument, same output: still aligned
+				}
+				panic(unsupported("string equality with Quote segments of different shape"))
+			case x.Q != nil || y.Q != nil:
+				r := y
+				if y.Q != nil {
+					r = x
+				}
+				if r.Raw != "" {
+					return false
+				}
+				if c, ok := r.R.(int64); ok && c != '"' {
+					return false // a quoted string starts with '"'
+				}
+				panic(unsupported("string equality Quote vs rune"))
+			case x.Raw != "" || y.Raw != "":
+				if x.Raw != y.Raw {
+					return false
+				}
+			default:
+				cx, okx := x.R.(int64)
+				cy, oky := y.R.(int64)
+				if okx && oky && cx != cy {
+					return false
+				}
+				if !(okx && oky) {
+					// a symbolic rune: equal or not, the alignment is kept (one rune either way)
+					continue
+				}
 			}
 		}
-		for _, it := range ib {
-			if it.Q != nil {
-				panic(unsupported("string equality with Quote segment of different shape"))
-			}
-		}
-		return false
 	}
 	res := e.st.True
 	for i := range ia {
